@@ -1,7 +1,7 @@
 #!/bin/sh
 # usage: tools/run_all.sh [tier]   -- runs every registered check once, prints one line per property, exits non-zero if any did
 T=${1:-quick}; cd "$(dirname "$0")/.."; rc=0
-for p in C01 C02 C03 C04 C05 C06 C07 C08 C09 C10 C11 C12 C13 C14 C15 C16 C17 C18 C19 C20; do
+for p in ${PROPS:-C01 C02 C03 C04 C05 C06 C07 C08 C09 C10 C11 C12 C13 C14 C15 C16 C17 C18 C19 C20}; do
   out=$(/venv/bin/python check.py $p $T 2>&1); r=$?
   echo "$out" | grep -E "VIOLATION|HARNESS" | head -3
   echo "$out" | tail -1
